@@ -47,6 +47,7 @@ F_CASE = "C12-case-collision-hash-order"
 F_TOPO = "C12-numbering-toposort-set-order"
 F_INHBY = "C12-inheritedby-children-set-order"
 F_GENCOPY = "C12-numbering-generic-copies-set-order"
+F_CLIOUT = "C12-cli-output-dir-not-excluded"
 
 
 # --------------------------------------------------------------------------
@@ -59,8 +60,12 @@ class Gen:
     others draw from small pools so that the known order-dependent classes occur."""
 
     def __init__(self, rng: random.Random, clean: bool, nfiles: int, multi_use: bool | None = None,
-                 case_variants: bool = False, includes: bool = False):
+                 case_variants: bool = False, includes: bool = False, preproc: bool = False):
         self.rng = rng
+        # preprocessing is on; the configured extensions contain dotted suffixes of one another (`f90` / `pp.f90`),
+        # some files carry the longer one, and program units have `#ifdef` blocks that declare different
+        # variables with and without the preprocessor
+        self.preproc = preproc
         self.case_variants = case_variants
         # include directories (configured order, deliberately not alphabetical) holding equally named files
         self.inc_dirs: list[str] = []
@@ -99,7 +104,8 @@ class Gen:
                 if not self.clean and rng.random() < 0.25 and self.files:
                     base = os.path.basename(rng.choice(self.files)["path"])
                 else:
-                    base = f"f{k}_{rng.choice('abcxyz')}." + rng.choice(["f90", "f90", "F90", "f95", "f03"])
+                    base = f"f{k}_{rng.choice('abcxyz')}." + rng.choice(
+                        ["pp.f90", "pp.f90", "F90", "f90", "pp.F90", "q.f90"] if self.preproc else ["f90", "f90", "F90", "f95", "f03"])
                 path = rng.choice(dirs) + base
                 if path not in used_paths and (not self.clean or base not in {os.path.basename(p) for p in used_paths}):
                     used_paths.add(path)
@@ -108,6 +114,8 @@ class Gen:
             nunits = rng.choice([1, 1, 2])
             for _ in range(nunits):
                 u = self.module()
+                if self.preproc and rng.random() < 0.85:
+                    u["pp"] = (self.fresh("ppon"), self.fresh("ppoff"))
                 self.add_includes(path, u)
                 self.add_unit(f, u)
             if self.modnames and rng.random() < 0.45:
@@ -362,6 +370,9 @@ class Gen:
         for v in u["vars"]:
             L.append(f"  integer :: {v} = 0")
             L.append(f"    !! variable {v}")
+        if u.get("pp"):
+            L += ["#ifdef __GFORTRAN__", f"  integer :: {u['pp'][0]} = 1", "    !! declared when the file goes through the preprocessor",
+                  "#else", f"  integer :: {u['pp'][1]} = 2", "    !! declared when it does not", "#endif"]
         if u["kind"] == "program":
             for c in u.get("calls", []):
                 L.append(f"  call {c}()")
@@ -429,7 +440,7 @@ class Gen:
                 for name in u.get("includes", []):
                     for v, _val in self.include_variant(f["path"], name)[1]:
                         ents.append((f["path"], q + v, "none", v))
-                for v in u["vars"]:
+                for v in u["vars"] + list(u.get("pp") or ()):
                     ents.append((f["path"], q + v, "none", v))
                 for t in u["types"]:
                     ents.append((f["path"], q + t["name"], "type", t["name"]))
@@ -575,7 +586,8 @@ SHIM = r'''
 import json as _json, os as _os, atexit as _atexit
 import ford.fortran_project as _fp
 import ford.sourceform as _sf
-_TR = {"order": [], "requests": [], "lists": {}, "forced": %(forced)r, "readers": [], "types": []}
+_TR = {"order": [], "requests": [], "lists": {}, "forced": %(forced)r, "readers": [], "types": [],
+       "enumerated": None, "exts": None, "opened": []}
 _SRC = %(srcroot)r
 _ROOT = _os.path.dirname(_SRC)
 _orig_faf = _fp.find_all_files
@@ -586,12 +598,18 @@ def _rel(p):
         return str(p)
 def _faf(settings):
     got = list(_orig_faf(settings))
+    # what find_all_files really returned (relative to the project directory) and the extension lists it worked with
+    _TR["enumerated"] = sorted(_os.path.relpath(str(p), _ROOT) for p in got)
+    _TR["exts"] = {"extensions": list(settings.extensions), "fixed": list(settings.fixed_extensions),
+                   "fpp": list(settings.fpp_extensions), "extra": list(settings.extra_filetypes)}
     forced = _TR["forced"]
     if forced is not None:
         byrel = {_rel(p): p for p in got}
-        if sorted(byrel) != sorted(forced):
-            raise SystemExit("shim: forced order does not match the enumerated files: %%r vs %%r" %% (sorted(byrel), sorted(forced)))
-        got = [byrel[r] for r in forced]
+        missing = [r for r in forced if r not in byrel]
+        if missing:
+            raise SystemExit("shim: source files of the project were not enumerated: %%r" %% (missing,))
+        # files the project does not have (e.g. read from a stale output directory) come after the forced ones
+        got = [byrel[r] for r in forced] + [byrel[r] for r in sorted(set(byrel) - set(forced))]
         return got
     return _Recorder(got)
 class _Recorder(list):
@@ -644,6 +662,12 @@ def _ri(self, filename, *a, **k):
         _TR["readers"].append(str(filename))
     return _orig_ri(self, filename, *a, **k)
 _rd.FortranReader.__init__ = _ri
+# how every source file is opened: through the preprocessor? as fixed form?
+_orig_sfi = _sf.FortranSourceFile.__init__
+def _sfi(self, filepath, settings, preprocessor=None, fixed=False, *a, **k):
+    _TR["opened"].append([_os.path.relpath(str(filepath).strip(), _ROOT), preprocessor is not None, bool(fixed)])
+    return _orig_sfi(self, filepath, settings, preprocessor, fixed, *a, **k)
+_sf.FortranSourceFile.__init__ = _sfi
 # what a derived type shows after correlate: components and type-bound procedures, in list order
 _orig_tc = _sf.FortranType.correlate
 def _tc(self, project):
@@ -678,11 +702,18 @@ def junk_tree(doc: Path, rng: random.Random, as_file: bool):
     if as_file:
         doc.write_text("this is a stale plain file where the output directory goes\n")
         return
-    for rel in ["stale.html", "proc/stale_proc~7.html", "module/old_module.html", "src/old.f90",
+    for rel in ["stale.html", "proc/stale_proc~7.html", "module/old_module.html", "src/old.f90", "src/Other.F90",
                 "search/search_database.json", "deep/er/than/usual/x.txt", "lists/procedures.html", "index.html"]:
         p = doc / rel
         p.parent.mkdir(parents=True, exist_ok=True)
-        p.write_text(f"stale {rng.random()}\n")
+        if rel.startswith("src/"):
+            # the copy of a source file of the project that was documented here before (`incl_src`)
+            m = "old_module" if rel.endswith("old.f90") else "other_stale"
+            p.write_text(f"module {m}\n  !! left by another project {rng.random()}\n  integer :: x = 0\n    !! stale\ncontains\n"
+                         f"  subroutine foo()\n    !! stale foo\n  end subroutine foo\n  subroutine init()\n  end subroutine init\n"
+                         f"end module {m}\n")
+        else:
+            p.write_text(f"stale {rng.random()}\n")
 
 
 def run_ford(pf, hashseed=None, extra_args=(), shim=None):
@@ -739,8 +770,11 @@ def one_run(job):
     d = root / f"r{rid}"
     if d.exists():
         shutil.rmtree(d)
+    # the output directory: from the project file (an explicit `None` leaves the option out), or given with `-o`
+    out_rel = run.get("cli_output_dir") or options.get("output_dir") or "./doc"
     pf = e2e.write_project(d, files, options)
-    doc = d / "doc"
+    doc = d / out_rel
+    extra = ["-o", run["cli_output_dir"]] if run.get("cli_output_dir") else []
     rng = random.Random(run.get("junk_seed", 0))
     t0 = time.time()
     log_pre = ""
@@ -750,14 +784,15 @@ def one_run(job):
         junk_tree(doc, rng, True)
     elif run["stale"] == "same":
         # an earlier run of the same project (other hash seed, natural order) left its output
-        rc0, log_pre = run_ford(pf, hashseed=run["hashseed"] + 17 if isinstance(run["hashseed"], int) else 5)
+        rc0, log_pre = run_ford(pf, hashseed=run["hashseed"] + 17 if isinstance(run["hashseed"], int) else 5, extra_args=extra)
         (doc / "leftover_marker.html").write_text("left by the earlier run\n") if doc.is_dir() else None
     tracefile = d / "trace.json"
     shim = SHIM % {"forced": run["order"], "srcroot": str(d / "src"), "tracefile": str(tracefile),
                    "workaround": bool(run.get("workaround"))}
-    extra = []
+    fs_before = sorted(str(p.relative_to(d)) for p in d.rglob("*") if p.is_file())
     rc, log = run_ford(pf, hashseed=run["hashseed"], extra_args=extra, shim=shim)
-    res = {"id": rid, "rc": rc, "log": (log_pre + log)[-1500:], "wall": time.time() - t0}
+    res = {"id": rid, "rc": rc, "log": (log_pre + log)[-1500:], "wall": time.time() - t0, "fs_before": fs_before,
+           "out_rel": os.path.normpath(out_rel)}
     res["tree"] = e2e.tree_digest(doc) if doc.is_dir() else {}
     try:
         res["trace"] = json.loads(tracefile.read_text())
@@ -798,6 +833,10 @@ def micro_sort(ford, drv, rng, n, rep):
             for x in xs:
                 nd = object.__new__(G.BaseNode)
                 nd.ident = x
+                # as `BaseNode.__init__` fills them in: the identifier is unique (`proc~foo~2`), the label shown in
+                # the graph is the bare name (`foo`) - several nodes of one graph may carry the same label
+                nd.attribs = {"label": x.split("~")[0].strip().lower()[:2]}
+                nd.name = nd.attribs["label"]
                 nodes.append(nd)
             st = set(nodes)
             xs = [nd.ident for nd in st]
@@ -870,6 +909,42 @@ def micro_number(ford, drv, rng, n, rep, hist):
     return len(reqs), bad
 
 
+def micro_filekind(T, drv, rng, n, rep, hist):
+    """the real `Project.__init__` / `_fortran_file` on stubs (translate.c12._probe_project: `find_all_files` hands
+    out the names, the source-file class only records how it is called), for random extension lists - in random
+    order, some extensions being dotted suffixes of others - and file names with one or several suffixes"""
+    pool = ["f90", "F90", "pp.f90", "q.f90", "f", "inc.f", "F", "x.y.f90", "txt", "cfg.txt", "90", "pp.F90"]
+    stems = ["a", "b.c", "d", "e_1"]
+    tails = ["f90", "pp.f90", "q.f90", "F90", "f", "inc.f", "txt", "cfg.txt", "x.y.f90", "pp.F90", "f90.txt", "F", "dat", "90", ""]
+    reqs, exp = [], []
+    for _ in range(n):
+        cand = rng.sample(pool, len(pool))
+        exts = cand[:rng.randint(1, 4)]
+        fixed = cand[4:4 + rng.randint(0, 2)]
+        extra = cand[6:6 + rng.randint(0, 2)]
+        fpp = rng.sample(exts + fixed, rng.randint(0, min(3, len(exts + fixed))))
+        names = list(dict.fromkeys(rng.choice(stems) + ("." + t if t else "") for t in rng.sample(tails, rng.randint(1, 6))))
+        paths = ["/p/src/" + nm for nm in names]
+        dec, _log = T._probe_project(paths, exts, fixed, fpp, extra)
+        real = {os.path.basename(d[0]): (["fortran", "1" if d[2] else "0", "1" if d[3] else "0"] if d[1] == "fortran" else ["extra"])
+                for d in dec}
+        for nm in names:
+            reqs.append(["c12.filekind", nm, str(len(exts)), *exts, str(len(fixed)), *fixed, str(len(fpp)), *fpp,
+                         str(len(extra)), *extra])
+            exp.append(["ok"] + real.get(nm, ["skipped"]))
+            ends = sum(1 for e in exts + fixed + extra if nm.endswith("." + e))
+            k = f"file kind: name ends with {min(ends, 2)}{'+' if ends >= 2 else ''} configured extensions"
+            hist[k] = hist.get(k, 0) + 1
+    got = drv.batch(reqs)
+    bad = 0
+    for r, e, g in zip(reqs, exp, got):
+        if e != g:
+            bad += 1
+            rep.tie_broken(f"correspondence micro/filekind: model {g} vs Project.__init__ {e} for {r[1]!r}",
+                           {"stream": "micro/filekind", "request": r, "impl": e, "model": g})
+    return len(reqs), bad
+
+
 def micro_fs(drv, rng, n, rep, scratch: Path):
     dirs = ["out", "out/proc", "out/src", "out/proc/deep", "other"]
     files = [d + "/" + f for d in dirs for f in ("a.html", "b.html")] + ["top.txt"]
@@ -933,6 +1008,39 @@ def assignment(run):
     inheriting type as parent"""
     return sorted((r[4], r[5], r[1], r[3], r[6] if len(r) > 6 else "", r[2].lower())
                   for r in (run["trace"] or {}).get("requests", []))
+
+
+def out_cfg_label(feat, options) -> str:
+    """the row of the probed table `outputDirExcludedIn` this project's way of naming its output directory is"""
+    how = "the command line" if feat.get("out_mode") == "nested-cli" else "the project file"
+    return f"output_dir from {how}; " + ("project_url set" if options.get("project_url") else "relative URLs")
+
+
+def stale_output_read(feat, options, run, res, out_cfg_excluded) -> bool:
+    """class C12-cli-output-dir-not-excluded, decided from the input: the output directory is given with `-o` only,
+    lies inside the source directory and holds Fortran files when the run starts (left by this or another
+    project) - and the tree is the unrepaired one (probed) - and files below it really were enumerated"""
+    if feat.get("out_mode") != "nested-cli" or run.get("stale") not in ("junk", "same"):
+        return False
+    if out_cfg_excluded.get(out_cfg_label(feat, options), True):
+        return False
+    out = res.get("out_rel", "") + "/"
+    return any(p.startswith(out) for p in ((res.get("trace") or {}).get("enumerated") or []))
+
+
+def classify_failure(feat, options, run, res, out_cfg_excluded):
+    """a run that stops with an error where the base run completes -> (finding id | None, explanation)"""
+    graphs_to_files = "graph_dir" in options and options.get("graph") == "true"
+    if run["parallel"] > 0 and not run.get("workaround") and graphs_to_files and "cannot pickle" in res["log"]:
+        return F_PAR, "parallel > 0 with graph_dir: the settings object holds an open file"
+    if run["parallel"] > 0 and run.get("workaround") and feat.get("case_collide") and "graph_dir" in options:
+        # two entities whose names differ only in case get the same identifier (C10), so two worker processes
+        # write the same graph file at the same time
+        return F_RACE, "two worker processes write the graph file of one shared identifier"
+    if stale_output_read(feat, options, run, res, out_cfg_excluded):
+        return F_CLIOUT, "the output directory given with -o is inside the source directory and not excluded: " \
+                         "the files an earlier run left there are parsed (and deleted before they are copied)"
+    return None, "no known class explains it"
 
 
 def classify(feat, options, base, other, diff_files, same_order: bool):
@@ -1065,12 +1173,14 @@ def run(tier: str, seed: int, replay: str | None = None) -> int:
     drv = Driver()
     hist: dict[str, int] = {}
     variant = drv.call("c12.variant")
+    out_cfg_excluded = dict(tables.get("outputDirExcludedIn") or [])
     n_micro = 1500 if tier == "quick" else 15000
 
     with common.scratch_dir("ford-verif-c12-") as scratch:
         ev_s, bad_s = micro_sort(ford, drv, rng, n_micro, rep)
         ev_n, bad_n = micro_number(ford, drv, rng, n_micro, rep, hist)
         ev_f, bad_f = micro_fs(drv, rng, 300 if tier == "quick" else 3000, rep, scratch)
+        ev_k, bad_k = micro_filekind(T, drv, rng, 250 if tier == "quick" else 2500, rep, hist)
 
         # ---------------- e2e
         nproj = 24 if tier == "quick" else 60
@@ -1082,19 +1192,34 @@ def run(tier: str, seed: int, replay: str | None = None) -> int:
             clean = pi % 4 in (0, 1)          # globally unique names, unique basenames
             multi = pi % 4 in (1, 2)          # units with two or more USEs
             nfiles = rng.choice([2, 3, 3, 4]) if tier == "quick" else rng.choice([2, 3, 4, 5])
+            preproc = pi % 6 == 5
             g = Gen(random.Random(rng.randint(0, 10 ** 9)), clean, nfiles, multi, case_variants=(pi % 8 == 7),
-                    includes=(pi % 3 == 0))
+                    includes=(pi % 3 == 0), preproc=preproc)
             options = {"graph": "true" if pi % 3 != 2 else "false",
                        "search": "true" if (pi % 3 == 1) else "false",
                        "incl_src": "true" if pi % 5 != 4 else "false"}
+            # where the output goes: next to the source directory, or *inside* it (as with `src_dir: .` and the
+            # default `./doc`) - then everything an earlier run left there has a source directory above it;
+            # the directory is named in the project file or, for some projects, only on the command line
+            out_mode = "plain" if pi % 5 not in (1, 4) else ("nested-cli" if pi % 10 == 9 else "nested")
+            out_rel = "./doc" if out_mode == "plain" else "./src/html"
+            options["output_dir"] = None if out_mode == "nested-cli" else out_rel
+            if options["search"] == "false" and pi % 2 == 0:
+                # absolute URLs (with the search index on, FORD joins a str and a Path for them and stops)
+                options["project_url"] = "https://example.org/testproj"
             if options["graph"] == "true" and pi % 2 == 1 or pi % 6 == 0:
                 options["graph"] = "true"
-                options["graph_dir"] = "./doc/graphs"
+                options["graph_dir"] = out_rel + "/graphs"
             if g.inc_dirs:
                 options["include"] = ["./" + d for d in g.inc_dirs]
+            if preproc:
+                # the extension lists contain dotted suffixes of one another: `x.pp.f90` ends in `f90` and in `pp.f90`
+                options.update(preprocess="true", extensions=["f90", "q.f90"], fpp_extensions=["pp.f90", "F90"])
             runs = plan_runs(rng, g, tier, options)
+            for r in runs:
+                r["cli_output_dir"] = out_rel if out_mode == "nested-cli" else None
             proj = {"index": pi, "gen": g, "options": options, "runs": runs, "files": g.sources(),
-                    "features": g.features(), "root": str(scratch / f"p{pi}")}
+                    "features": dict(g.features(), out_mode=out_mode, preproc=preproc), "root": str(scratch / f"p{pi}")}
             projects.append(proj)
             for r in runs:
                 o = dict(options)
@@ -1131,6 +1256,8 @@ def run(tier: str, seed: int, replay: str | None = None) -> int:
         site_reqs, site_ctx = [], []
         inc_reqs, inc_ctx = [], []
         inh_reqs, inh_ctx = [], []
+        find_reqs, find_ctx = [], []
+        kind_reqs, kind_ctx = [], []
         for proj in projects:
             pi = proj["index"]
             feat = proj["features"]
@@ -1163,31 +1290,20 @@ def run(tier: str, seed: int, replay: str | None = None) -> int:
                 hist["run: " + r["regime"]] = hist.get("run: " + r["regime"], 0) + 1
                 hist[f"run: stale={r['stale']}"] = hist.get(f"run: stale={r['stale']}", 0) + 1
                 hist[f"run: parallel={r['parallel']}"] = hist.get(f"run: parallel={r['parallel']}", 0) + 1
-                if rr is not None and rr["rc"] != 0 and r["parallel"] > 0 and not r.get("workaround") \
-                        and base is not None and base["rc"] == 0:
-                    # the run with worker processes dies where the serial run succeeds: a failure of the property
-                    crash = "graph_dir" in proj["options"] and proj["options"].get("graph") == "true" \
-                        and "cannot pickle" in rr["log"]
-                    hist["difference: " + (F_PAR if crash else "UNEXPLAINED")] = \
-                        hist.get("difference: " + (F_PAR if crash else "UNEXPLAINED"), 0) + 1
+                if rr is not None and rr["rc"] not in (0, -9) and r["id"] != 0 and base is not None and base["rc"] == 0:
+                    # The run stops with an error where the base run - same project, same options - completes: the
+                    # output is not the same (clauses: worker processes / hash seed / enumeration order / what an
+                    # earlier run left in the output directory, whichever this run varies).  (-9: killed by the
+                    # harness's own watchdog, not a verdict.)
+                    cls, why = classify_failure(feat, proj["options"], r, rr, out_cfg_excluded)
+                    hist["difference: " + (cls or "UNEXPLAINED")] = hist.get("difference: " + (cls or "UNEXPLAINED"), 0) + 1
                     rep.failing_input({"stream": "e2e", "project": pi, "files": proj["files"], "options": proj["options"],
                                        "features": feat, "base_run": proj["runs"][0], "other_run": r,
-                                       "why": "run with parallel > 0 fails (rc=%s) where parallel = 0 succeeds" % rr["rc"],
-                                       "log": rr["log"][-600:],
-                                       "oracle": "the number of worker processes must not change the output"},
-                                      F_PAR if crash else None)
-                    continue
-                if rr is not None and rr["rc"] != 0 and r["parallel"] > 0 and r.get("workaround") \
-                        and base is not None and base["rc"] == 0 and feat.get("case_collide") \
-                        and "graph_dir" in proj["options"]:
-                    # two entities whose names differ only in case get the same identifier (C10), so two
-                    # worker processes write the same graph file at the same time
-                    hist["difference: " + F_RACE] = hist.get("difference: " + F_RACE, 0) + 1
-                    rep.failing_input({"stream": "e2e", "project": pi, "files": proj["files"], "options": proj["options"],
-                                       "features": feat, "base_run": proj["runs"][0], "other_run": r,
-                                       "why": "run with parallel > 0 fails (rc=%s) where parallel = 0 succeeds" % rr["rc"],
-                                       "log": rr["log"][-600:],
-                                       "oracle": "the number of worker processes must not change the output"}, F_RACE)
+                                       "why": f"this run fails (rc={rr['rc']}) where the base run succeeds: {why}",
+                                       "files_enumerated": (rr.get("trace") or {}).get("enumerated"),
+                                       "log": rr["log"][-700:],
+                                       "oracle": "two runs of the same project and options must give byte-identical trees; "
+                                                 "a run that fails gives none"}, cls)
                     continue
                 if rr is None or rr["rc"] != 0 or not rr["tree"]:
                     rep.tie_broken(f"e2e: ford run failed (project {pi}, run {r})",
@@ -1201,7 +1317,8 @@ def run(tier: str, seed: int, replay: str | None = None) -> int:
                 if r["order"] is not None:
                     # asIs: the set is parsed in its iteration order; repaired: sorted first (variant read from the tree)
                     expect = r["order"] if variant[1] == "asIs" else sorted(r["order"])
-                    if tr["order"] != expect:
+                    # (files that do not belong to the project are dealt with below)
+                    if [p for p in tr["order"] if p in proj["files"]] != expect:
                         rep.tie_broken(f"e2e: files parsed in {tr['order']}; enumeration forced to {r['order']}, "
                                        f"variant {variant[1]} predicts {expect}")
                 distinct.add(common.digest([proj["files"], proj["options"], tr["order"], r["hashseed"], r["parallel"], r["stale"]]))
@@ -1217,8 +1334,28 @@ def run(tier: str, seed: int, replay: str | None = None) -> int:
                 number_reqs.append(["c12.number", *fields])
                 number_exp.append(e)
                 number_ctx.append((pi, r["id"]))
+                # --- which files are read (find_all_files on the files that were on disk when the run started)
+                #     and as what each of them is opened (preprocessed? fixed form?)
+                if tr.get("enumerated") is not None and tr.get("exts"):
+                    ex = tr["exts"]
+                    allext = ex["extensions"] + ex["fixed"] + ex["extra"]
+                    find_reqs.append(["c12.find", out_cfg_label(feat, proj["options"]), rr["out_rel"], "1", "src", "0",
+                                      str(len(allext)), *allext, *rr["fs_before"]])
+                    find_ctx.append((pi, r, tr["enumerated"]))
+                    for (path, pre, fixed) in tr.get("opened", []):
+                        kind_reqs.append(["c12.filekind", os.path.basename(path)]
+                                         + [x for key in ("extensions", "fixed", "fpp", "extra")
+                                            for x in [str(len(ex[key])), *ex[key]]])
+                        kind_ctx.append((pi, r, path, ["ok", "fortran", "1" if pre else "0", "1" if fixed else "0"]))
+                else:
+                    rep.tie_broken(f"e2e: the shim did not see find_all_files (project {pi}, run {r['id']})")
+                unknown = [p for p in tr["order"] if p not in proj["files"]]
+                if unknown and not stale_output_read(feat, proj["options"], r, rr, out_cfg_excluded):
+                    rep.tie_broken(f"e2e (project {pi} run {r['id']}, output directory {r['stale']}): files that are not "
+                                   f"sources of the project were parsed: {unknown[:6]}",
+                                   {"stream": "e2e", "run": r, "parsed": tr["order"]})
                 # --- project lists / search order / src copies predicted from the enumeration order
-                if proj["gen"] is not None:
+                if proj["gen"] is not None and not unknown:
                     g = proj["gen"]
                     ents = g.entities()
                     uid_of = {(p, q, d): i + 1 for i, (p, q, d, n) in enumerate(ents)}
@@ -1281,13 +1418,30 @@ def run(tier: str, seed: int, replay: str | None = None) -> int:
                     continue
                 n_diff_pairs += 1
                 same_order = (rr["trace"] or {}).get("order") == (base["trace"] or {}).get("order")
-                cls, why = classify(feat, proj["options"], base, rr, diff, same_order)
+                if stale_output_read(feat, proj["options"], r, rr, out_cfg_excluded):
+                    cls, why = F_CLIOUT, "files below the output directory (given with -o, inside the source directory) " \
+                                         "were parsed as sources"
+                else:
+                    cls, why = classify(feat, proj["options"], base, rr, diff, same_order)
+                    # the open findings explain differences between two runs that *read the same input in the same
+                    # way*; a run that enumerated other files or opened a file differently (preprocessed / not,
+                    # fixed / free form) is explained by none of them
+                    tb, to = base["trace"] or {}, rr["trace"] or {}
+                    if cls is not None and tb.get("enumerated") is not None and to.get("enumerated") is not None and (
+                            tb["enumerated"] != to["enumerated"]
+                            or sorted(map(tuple, tb.get("opened") or [])) != sorted(map(tuple, to.get("opened") or []))):
+                        cls, why = None, f"the two runs did not read the same files in the same way (would otherwise be {cls}: {why})"
                 hist["difference: " + (cls or "UNEXPLAINED")] = hist.get("difference: " + (cls or "UNEXPLAINED"), 0) + 1
                 case = {"stream": "e2e", "project": pi, "files": proj["files"], "options": proj["options"],
                         "features": feat, "base_run": proj["runs"][0], "other_run": r,
                         "parse_order_base": (base["trace"] or {}).get("order"),
                         "parse_order_other": (rr["trace"] or {}).get("order"),
                         "differing_files": diff[:30], "only_in_one": sorted(set(a) ^ set(b))[:20], "why": why,
+                        "files_enumerated_only_in_one_run": sorted(set((base["trace"] or {}).get("enumerated") or [])
+                                                                   ^ set((rr["trace"] or {}).get("enumerated") or []))[:12],
+                        "files_opened_differently": sorted(
+                            {tuple(x) for x in (base["trace"] or {}).get("opened") or []}
+                            ^ {tuple(x) for x in (rr["trace"] or {}).get("opened") or []})[:12],
                         "identifiers_assigned_differently": sorted(set(assignment(base)) ^ set(assignment(rr)))[:12],
                         "oracle": "two runs of the same project and options must give byte-identical trees"}
                 if len(samples) < 3:
@@ -1302,6 +1456,24 @@ def run(tier: str, seed: int, replay: str | None = None) -> int:
                 bad_tr += 1
                 rep.tie_broken(f"correspondence e2e/number: NameSelector trace of project {ctx[0]} run {ctx[1]} "
                                f"is not what the model assigns", {"stream": "e2e/number", "impl": e[:40], "model": g[:40]})
+        got = drv.batch(find_reqs)
+        for (pi, r, real), g_ in zip(find_ctx, got):
+            hist[f"find_all_files: {len(real)} files"] = hist.get(f"find_all_files: {len(real)} files", 0) + 1
+            if g_[0] != "ok" or sorted(g_[1:]) != sorted(real):
+                bad_tr += 1
+                rep.tie_broken(f"correspondence e2e/find (project {pi} run {r['id']}, output directory {r['stale']}): "
+                               f"find_all_files returned {sorted(real)}; the model (below a source directory, configured "
+                               f"extension, not below an excluded directory - the output directory being one as probed) "
+                               f"says {sorted(g_[1:])}", {"stream": "e2e/find", "run": r, "impl": sorted(real), "model": g_})
+        got = drv.batch(kind_reqs)
+        for (pi, r, path, want), g_ in zip(kind_ctx, got):
+            k = "file opened: " + ("preprocessed" if want[2] == "1" else "as it is") + (", fixed form" if want[3] == "1" else "")
+            hist[k] = hist.get(k, 0) + 1
+            if g_ != want:
+                bad_tr += 1
+                rep.tie_broken(f"correspondence e2e/filekind (project {pi} run {r['id']}, hash seed {r['hashseed']}): {path} "
+                               f"was opened as {want[1:]} (fortran, preprocessed, fixed form); the model says {g_[1:]}",
+                               {"stream": "e2e/filekind", "run": r, "file": path, "impl": want, "model": g_})
         got = drv.batch(inc_reqs)
         for (pi, r, inc, real), g_ in zip(inc_ctx, got):
             want = (g_[2] + "/" + inc["name"]) if g_[:2] == ["ok", "some"] else None
@@ -1379,21 +1551,26 @@ def run(tier: str, seed: int, replay: str | None = None) -> int:
                                {"stream": "e2e/site", "run": r, "problem": pr[:2000]})
     drv.close()
     rep.coverage.update(
-        evaluations=ev_s + ev_n + ev_f + n_runs,
+        evaluations=ev_s + ev_n + ev_f + ev_k + n_runs,
         distinct_nontrivial=len(distinct),
         rule="an e2e evaluation is one `python -m ford` subprocess on a generated multi-file project; non-trivial = "
              "it completed with a NameSelector/parse-order trace; distinct by digest of (sources, options, parse order, "
              "hash seed, parallel, prior state of the output directory)",
         samples=samples,
-        traces_validated_against_impl=ev_s + ev_n + ev_f + len(number_reqs) + n_site + len(inc_reqs) + len(inh_reqs),
+        traces_validated_against_impl=ev_s + ev_n + ev_f + ev_k + len(number_reqs) + n_site + len(inc_reqs) + len(inh_reqs)
+        + len(find_reqs) + len(kind_reqs),
+        file_sets_corresponded=len(find_reqs), files_opened_corresponded=len(kind_reqs),
         include_lines_corresponded=len(inc_reqs), derived_type_lists_corresponded=len(inh_reqs),
-        correspondence_disagreements=bad_s + bad_n + bad_f + bad_tr,
+        correspondence_disagreements=bad_s + bad_n + bad_f + bad_k + bad_tr,
         e2e_runs=n_runs, e2e_pairs_compared=n_pairs, e2e_pairs_differing=n_diff_pairs, e2e_wall_s=round(e2e_wall, 1),
         variant_decided={"file iteration": variant[1], "uses iteration": variant[2], "NameSelector counter key": variant[3],
-                         "include directories": variant[4], "inherited entities": variant[5]},
+                         "include directories": variant[4], "inherited entities": variant[5],
+                         "kind of a file": variant[6] if len(variant) > 6 else "?",
+                         "output directory excluded from the source search": out_cfg_excluded},
         generated_tables={k: tables.get(k) for k in ("fileIterSorted", "countKeyLower", "usesIterSorted", "writeoutSteps", "pageListOrder",
                                                       "fortranFileOrder", "unitChainOrder", "incDirsOrdered", "incDirsKept",
-                                                      "inheritedIterOrdered", "inheritedIterables", "hashIterSites")},
+                                                      "inheritedIterOrdered", "inheritedIterables", "hashIterSites",
+                                                      "extensionBySuffix", "outputDirExcludedIn", "symbolReplacements")},
         input_histogram=dict(sorted(hist.items())),
     )
     rep.assumptions += [
